@@ -578,7 +578,12 @@ func TestUnaryChains(t *testing.T) {
 	worlds := gen.FixedWorlds()
 	count := 0
 	leaves := []func() *ir.Expr{func() *ir.Expr { return ir.Var("context") }, func() *ir.Expr { return ir.Lit(ir.Long(5)) }, func() *ir.Expr { return ir.Lit(ir.Long(-5)) },
-		func() *ir.Expr { return ir.Lit(ir.Bool(true)) }, func() *ir.Expr { return ir.Access(ir.Var("context"), "k") }, func() *ir.Expr { return ir.Bin(ir.OpMul, ir.Lit(ir.Long(2)), ir.Lit(ir.Long(-3))) }}
+		func() *ir.Expr { return ir.Lit(ir.Bool(true)) }, func() *ir.Expr { return ir.Access(ir.Var("context"), "k") }, func() *ir.Expr { return ir.Bin(ir.OpMul, ir.Lit(ir.Long(2)), ir.Lit(ir.Long(-3))) },
+		// member access on an integer literal, with keys the printer writes as .id and as ["..."]: `-5.a` / `-5["a b"]` must
+		// come back as the negation of the access, not as an access on the literal -5
+		func() *ir.Expr { return ir.Access(ir.Lit(ir.Long(5)), "a") }, func() *ir.Expr { return ir.Access(ir.Lit(ir.Long(5)), "a b") }, func() *ir.Expr { return ir.Access(ir.Lit(ir.Long(0)), "if") },
+		func() *ir.Expr { return ir.Access(ir.Access(ir.Lit(ir.Long(7)), ""), "c") }, func() *ir.Expr { return ir.Has(ir.Lit(ir.Long(5)), "a b") },
+		func() *ir.Expr { return ir.Ext("isIpv4", ir.Lit(ir.Long(5))) }}
 	for _, leaf := range leaves {
 		for n := 1; n <= 8; n++ {
 			for mask := 0; mask < 1<<n; mask++ {
